@@ -76,6 +76,10 @@ def _payload(rnd):
     r = rnd.random()
     if r < 0.12:
         return b""
+    if r < 0.135:
+        # beyond the usual buffer sizes (64 KiB, 1 MiB)
+        n = rnd.choice([65535, 65536, 65537, 200000, 1048577, 1500000])
+        return (rnd.randbytes(251) * (n // 251 + 1))[:n]
     if r < 0.2:
         # contents that look like (or are) compressed streams themselves
         body = rnd.randbytes(rnd.randint(0, 60))
@@ -147,6 +151,7 @@ def run_case(case):
     cfg = case["cfg"]
     kind = case["kind"]
     obs = {"histories": 1, "ops": {}, "audits": 0, "overwrite_refusals": 0,
+           "payloads_over_64KiB": 0,
            "cross_config_reads": 0, "escape_attempts": 0, "escape_refused": 0,
            "kinds": {kind: 1}, "fs_calls_seen_during_escapes": 0, "gz_files_audited": 0,
            "configs": {f"{kind}:{int(cfg['flat'])}{int(cfg['gzip'])}": 1}}
@@ -191,6 +196,7 @@ def run_case(case):
                     # the URL dispatch parses this file: keep it a JSON object
                     data = b'{"k":' + str(rnd.randrange(10 ** 6)).encode() + b"}"
                 ow = rnd.random() < 0.5
+                obs["payloads_over_64KiB"] += int(len(data) > 65536)
                 op = ("store_chunk" if is_chunk else "store_file")
                 log.append((op, ident, len(data), mime, f"overwrite={ow}"))
                 obs["ops"][op] = obs["ops"].get(op, 0) + 1
@@ -378,4 +384,5 @@ def gates(obs, tier):
         "cross_config_reads": obs.get("cross_config_reads", 0) > 5000,
         "escape_attempts_refused": obs.get("escape_refused", 0) > 1000,
         "gz_files_audited": obs.get("gz_files_audited", 0) > 100,
+        "payloads_beyond_64KiB": obs.get("payloads_over_64KiB", 0) > 20,
     }
